@@ -218,8 +218,28 @@ func Build(priv ed25519.PrivateKey, rng io.Reader, blocks []ast.Block, keyID *ui
 	return t, nil
 }
 
+// noise performs operations on a token that must leave no trace (C08): a block builder that is
+// created, filled with never-seen names and abandoned, and lookups of facts the token does not
+// hold (unknown names, unknown strings, an unknown string inside a set). Every Append of every
+// property goes through it first, so a trace left behind shows up in that property's own
+// oracle (wire content, printed form, identifiers ...).
+func (t *Token) noise() {
+	n := len(t.Blocks)
+	Try(func() {
+		bb := t.B.CreateBlock()
+		_ = bb.AddFact(ast.P(fmt.Sprintf("abandoned_%d", n), ast.Str(fmt.Sprintf("never_built_%d", n))).LibFact())
+		_, _ = t.B.GetBlockID(ast.P(fmt.Sprintf("no_such_fact_%d", n), ast.Str(fmt.Sprintf("no_such_string_%d", n))).LibFact())
+		if len(t.Blocks) > 0 && len(t.Blocks[0].Facts) > 0 {
+			known := t.Blocks[0].Facts[0].Name
+			_, _ = t.B.GetBlockID(ast.P(known, ast.Str(fmt.Sprintf("lookup_only_%d", n))).LibFact())
+			_, _ = t.B.GetBlockID(ast.P(known, ast.SetOf(ast.Str(fmt.Sprintf("lookup_only_in_set_%d", n)))).LibFact())
+		}
+	})
+}
+
 // Append attenuates t with blk (t itself is left alone).
 func (t *Token) Append(rng io.Reader, blk ast.Block) (*Token, error) {
+	t.noise()
 	bb := t.B.CreateBlock()
 	acc, err := FillBlock(bb, blk)
 	if err != nil {
@@ -234,6 +254,9 @@ func (t *Token) Append(rng io.Reader, blk ast.Block) (*Token, error) {
 }
 
 func (t *Token) Seal(rng io.Reader) (*Token, error) {
+	// a holder that has already stored or sent the token before sealing it: whatever Serialize
+	// remembers about the unsealed token must not come back out of the sealed one
+	_, _ = t.B.Serialize()
 	nb, err := t.B.Seal(rng)
 	if err != nil {
 		return nil, err
@@ -250,6 +273,12 @@ func (t *Token) Reload() (*Token, error) {
 	nb, err := biscuit.Unmarshal(ser)
 	if err != nil {
 		return nil, err
+	}
+	// the caller's buffer is the caller's: what Serialize returned and what Unmarshal was
+	// given is overwritten, as a receive loop re-using its buffer would do; neither token may
+	// keep a reference into it
+	for i := range ser {
+		ser[i] = 0xAA
 	}
 	return &Token{B: nb, Blocks: t.Blocks, Pub: t.Pub, Priv: t.Priv, KeyID: t.KeyID, Sealed: t.Sealed}, nil
 }
